@@ -387,6 +387,30 @@ pub fn recover_with(
 }
 
 /// Only the abstract part of a recovery, for grouping equal outcomes.
+/// 1 if the oldest file of the image begins with a well-formed continuation frame (Middle / Last):
+/// the head of that entry was in a file that no longer exists (a GC pass interrupted between two
+/// unlinks while the oldest files held a multi-file entry).
+pub fn orphan_head(files: &BTreeMap<u64, FileImg>) -> i64 {
+    let Some((_, oldest)) = files.iter().next() else { return 0 };
+    let data = &oldest.data;
+    if data.len() < 7 {
+        return 0;
+    }
+    let frame_type = data[6];
+    if frame_type != 3 && frame_type != 4 {
+        return 0;
+    }
+    let len = u16::from_le_bytes([data[4], data[5]]) as usize;
+    if 7 + len > data.len() {
+        return 0;
+    }
+    let mut hasher = crc32fast::Hasher::default();
+    hasher.update(&[frame_type]);
+    hasher.update(&data[7..7 + len]);
+    let checksum = u32::from_le_bytes([data[0], data[1], data[2], data[3]]);
+    (hasher.finalize() == checksum) as i64
+}
+
 fn group_key(recovery: &Recovery) -> String {
     let mut key = format!("{}|", recovery.out);
     if let Some(qs) = recovery.st.get("qs") {
@@ -674,7 +698,9 @@ pub fn expand(record: &RunRecord, opts: &CrashOpts) -> (Vec<CrashLine>, CrashSta
                 stats.timeouts += 1;
             }
             let mut key = group_key(&recovery);
-            let mut depth2_lines: Vec<(String, Recovery)> = Vec::new();
+            let orph = orphan_head(&files);
+            key.push_str(&format!("|o{orph}"));
+            let mut depth2_lines: Vec<(String, Recovery, i64)> = Vec::new();
             if opts.depth2 && recovery.out == "ok" && !recovery.effects.is_empty() && model == "process" {
                 // crash the recovery itself at each boundary of its own effects
                 let mut second = Image {
@@ -687,14 +713,15 @@ pub fn expand(record: &RunRecord, opts: &CrashOpts) -> (Vec<CrashLine>, CrashSta
                         break;
                     }
                     let seed2 = splitmix(&mut state);
-                    let recovery2 = recover(&script, &second.process_image(), opts.cont, seed2, opts.deadline);
+                    let image2 = second.process_image();
+                    let recovery2 = recover(&script, &image2, opts.cont, seed2, opts.deadline);
                     stats.opens += 1;
                     stats.depth2_points += 1;
-                    depth2_lines.push((format!("{idx}"), recovery2));
+                    depth2_lines.push((format!("{idx}"), recovery2, orphan_head(&image2)));
                 }
             }
-            for (label, recovery2) in &depth2_lines {
-                key.push_str(&format!("#{label}:{}", group_key(recovery2)));
+            for (label, recovery2, orph2) in &depth2_lines {
+                key.push_str(&format!("#{label}:{}|o{orph2}", group_key(recovery2)));
             }
             let point_json = json!({"k": k, "tear": tear.map(|t| t as i64).unwrap_or(-1)});
             for (step, incall) in &placements {
@@ -708,7 +735,7 @@ pub fn expand(record: &RunRecord, opts: &CrashOpts) -> (Vec<CrashLine>, CrashSta
                 let mut crash_line = json!({
                     "ev": "crash", "i": step_order(*step), "incall": *incall as i64, "model": model,
                     "var": variant, "pt": point_json, "n": 1, "depth": 1, "out": recovery.out,
-                    "errtext": recovery.errtext, "ncont": recovery.cont.len(), "io": recovery.io,
+                    "errtext": recovery.errtext, "ncont": recovery.cont.len(), "io": recovery.io, "orph": orph,
                 });
                 if recovery.out == "ok" {
                     crash_line["st"] = recovery.st.clone();
@@ -718,12 +745,12 @@ pub fn expand(record: &RunRecord, opts: &CrashOpts) -> (Vec<CrashLine>, CrashSta
                 if !recovery.cont.is_empty() {
                     lines.push(json!({"ev": "pop"}));
                 }
-                for (label, recovery2) in &depth2_lines {
+                for (label, recovery2, orph2) in &depth2_lines {
                     let mut line2 = json!({
                         "ev": "crash", "i": step_order(*step), "incall": *incall as i64, "model": model,
                         "var": format!("{variant}+rec{label}"), "pt": point_json, "n": 1, "depth": 2,
                         "out": recovery2.out, "errtext": recovery2.errtext, "ncont": recovery2.cont.len(),
-                        "io": recovery2.io,
+                        "io": recovery2.io, "orph": *orph2,
                     });
                     if recovery2.out == "ok" {
                         line2["st"] = recovery2.st.clone();
